@@ -65,6 +65,10 @@ def run(R):
                       "UNION lowers every branch")
     R.rule("C01-R11", "no component of a pattern / operator is ignored: the lowering, the planner and the executor each read EVERY field of "
                       "EVERY variant of the enum they walk (one audited exception: the diagnostic label of an in-memory buffer)")
+    R.rule("C01-R12", "match-or-bind in the scan layer: wherever a scan, a GRAPH ?g evaluation or a quoted-triple match extends a solution with "
+                      "a variable, it first looks that variable up in the same solution - it binds only when absent and compares (and "
+                      "rejects on mismatch) when present; match_quad stages fresh bindings only for variables that are bound neither in "
+                      "the incoming solution nor earlier in the same pattern")
     R.rule("C01-R7", "plan memo completeness (shared with C02-R1): two different sub-plans of one query never share a memo entry")
     r1(R)
     r2(R)
@@ -77,6 +81,7 @@ def run(R):
     r9(R)
     r10(R)
     r11(R)
+    r12(R)
 
 
 def r1(R):
@@ -814,3 +819,151 @@ def r11(R):
             ok = f["name"] in got
             R.ob("C01-R11", "consults:%s:%s" % (b.name, f["name"]), "%s consults %s.%s" % (b.name, adtname, f["name"]), ok, where=b.where(),
                  detail=None if ok else "a modifier that is parsed and carried but never consulted has no effect on the answer")
+
+
+ROW_TY = "std::collections::hash::map::HashMap<alloc::string::String, u32"
+
+
+def _is_row(b, op):
+    pl = F.op_place(op)
+    if pl is None:
+        return False
+    return b.local_ty(pl["l"]).replace("&mut ", "").replace("&", "").startswith(ROW_TY)
+
+
+def _none_guard_of_lookup(b, bb, row_root):
+    """conditions at bb that say `row.get(..)` returned None (for the given row); returns the get-calls"""
+    out = []
+    for cd in G.conditions(b, bb):
+        if cd.get("kind") != "variant" or cd.get("variant") != "None":
+            continue
+        o = b.origin({"k": "copy", "pl": {"l": cd["pl"]["l"], "p": [], "t": ""}}, stop_named=False)
+        c = o[1] if o[0] == "call" else None
+        if c is None and o[0] == "place":
+            d = [x for x in b.defs().get(o[1]["l"], []) if x[0] == "call"]
+            c = d[0][2] if len(d) == 1 else None
+        hops = 0
+        while c is not None and c.name() in ("copied", "cloned", "or_else", "or", "map") and c.args and hops < 4:
+            o2 = b.origin(c.args[0], stop_named=False)
+            c = o2[1] if o2[0] == "call" else None
+            hops += 1
+        if c is not None and c.name() in ("get", "get_mut") and c.args and _is_row(b, c.args[0]):
+            r = b.origin(c.args[0], stop_named=True)
+            if row_root is None or (r[0] == "place" and r[1]["l"] == row_root):
+                out.append(c)
+    return out
+
+
+def r12(R):
+    prog = R.prog
+    n = 0
+    for nm in ("execute_graph_with_ids", "scan_one_graph", "match_term_with_store"):
+        b = R.body("C01-R12", "ExecutionEngine::" + nm, crate="kolibrie")
+        if b is None:
+            continue
+        R.saw(b)
+        for c in b.calls():
+            if c.name() != "insert" or len(c.args) != 3 or not _is_row(b, c.args[0]):
+                continue
+            n += 1
+            r = b.origin(c.args[0], stop_named=True)
+            root = r[1]["l"] if r[0] == "place" else None
+            # a row cloned from another row: the lookup may be on the clone or on its source
+            gets = _none_guard_of_lookup(b, c.bb, root)
+            if not gets and root is not None:
+                d = b.single_def(root)
+                if d and d[0] == "call" and d[2].name() == "clone" and d[2].args:
+                    src = b.origin(d[2].args[0], stop_named=True)
+                    if src[0] == "place":
+                        gets = _none_guard_of_lookup(b, c.bb, src[1]["l"])
+            ok = bool(gets)
+            R.ob("C01-R12", "bind-if-absent:%s:%d" % (nm, n), "%s binds a variable only after finding it absent from the same solution" % nm, ok,
+                 where=b.where(c.ln), detail=None if ok else "an unconditional insert overwrites the value the variable already has: a pattern that "
+                 "repeats a variable, or a GRAPH ?g under an already bound ?g, matches rows it must reject")
+            # the `present` side compares
+            for g in gets[:1]:
+                cmp_ok = False
+                some_t = None
+                for bb2, t in b.terms():
+                    if t["t"] == "switch":
+                        for tgt, cd in G.edge_conditions(b, bb2):
+                            if cd.get("kind") == "variant" and cd.get("variant") == "Some" and cd["pl"]["l"] in _aliases_of_call(b, g):
+                                some_t = tgt
+                if some_t is not None:
+                    region = b.reach_from([some_t], avoid={c.bb})
+                    for bb3, i, pl, rv, st in b.assigns():
+                        if bb3 in region and rv["rv"] == "binop" and rv["op"] in ("Eq", "Ne"):
+                            cmp_ok = True
+                    for x in b.calls():
+                        if x.bb in region and x.name() in ("eq", "ne"):
+                            cmp_ok = True
+                R.ob("C01-R12", "compare-if-present:%s:%d" % (nm, n), "when the variable is already bound, %s compares the two values" % nm, cmp_ok, where=b.where(g.ln))
+    mq = R.body("C01-R12", "ExecutionEngine::match_quad", crate="kolibrie")
+    if mq is not None:
+        R.saw(mq)
+        # staging writes: assignments through an index projection into a local array of (&str, u32)
+        stag = []
+        for bb, i, pl, rv, st in mq.assigns():
+            if pl["p"] and any(e["k"] in ("index", "constindex") for e in pl["p"]) and "(&str, u32)" in mq.local_ty(pl["l"]):
+                stag.append((bb, st.get("ln")))
+        R.ob("C01-R12", "staging", "match_quad stages fresh bindings in a local buffer (found %d write)" % len(stag), len(stag) >= 1, where=mq.where())
+        for bb, ln in stag:
+            g = _none_guard_of_lookup(mq, bb, None)
+            on_seed = [c for c in g if mq.alias_root(c.args[0]) == 6 or _root_is_param(mq, (F.op_place(c.args[0]) or {"l": -1})["l"], 6)]
+            R.ob("C01-R12", "stage-if-absent", "a fresh binding is staged only when the variable is bound neither in the incoming solution nor earlier in "
+                 "the pattern (None of seed.get(..).or_else(staged lookup))", bool(on_seed), where=mq.where(ln))
+            # the lookup also consults what was staged for earlier positions of the same pattern
+            staged_local = None
+            for bb2, i2, pl2, rv2, st2 in mq.assigns():
+                if pl2["p"] and any(e["k"] in ("index", "constindex") for e in pl2["p"]) and "(&str, u32)" in mq.local_ty(pl2["l"]):
+                    staged_local = pl2["l"]
+            consults = False
+            for x in mq.calls():
+                if x.name() in ("or_else", "or", "map_or", "map_or_else", "unwrap_or_else") and len(x.args) >= 2:
+                    o = mq.origin(x.args[-1], stop_named=False)
+                    rv3 = o[1] if o[0] == "rv" else None
+                    if rv3 is None and o[0] == "place":
+                        d3 = mq.single_def(o[1]["l"])
+                        rv3 = d3[3] if d3 and d3[0] == "assign" else None
+                    if rv3 is not None and rv3["rv"] == "aggregate" and rv3.get("ak") == "closure":
+                        for op in rv3["ops"]:
+                            oo = mq.origin(op, stop_named=True)
+                            if oo[0] == "place" and oo[1]["l"] == staged_local:
+                                consults = True
+            # or a direct search of the staged buffer in the same body
+            for x in mq.calls():
+                if x.name() in ("find", "position", "any") and x.args:
+                    names, roots = P.flat(P.tree(mq, x.args[0], stop_named=True))
+                    if any(r["k"] == "root" and r["local"] == staged_local for r in roots):
+                        consults = True
+            R.ob("C01-R12", "stage-sees-earlier-positions", "the lookup that precedes staging also searches the bindings staged for earlier positions of the "
+                 "same pattern", consults, where=mq.where(ln),
+                 detail=None if consults else "`?x p ?x` stages ?x twice and the second value overwrites the first: the pattern matches triples whose "
+                 "subject and object differ")
+        # mismatch rejects: a Ne comparison whose true edge returns without pushing
+        rej = False
+        pushes = {c.bb for c in mq.calls() if c.name() == "push"}
+        for bb, i, pl, rv, st in mq.assigns():
+            if rv["rv"] == "binop" and rv["op"] in ("Ne", "Eq") and not pl["p"]:
+                for bb2, t in mq.terms():
+                    if t["t"] == "switch" and F.op_local(t["discr"]) == pl["l"]:
+                        for tgt in mq.succ(bb2):
+                            reach = mq.reach_from([tgt])
+                            if not (reach & pushes):
+                                rej = True
+        R.ob("C01-R12", "mismatch-rejects", "match_quad compares an already bound variable (and constants) with the quad's value and emits nothing on mismatch",
+             rej, where=mq.where())
+        n += len(stag)
+    R.floor("C01-R12", "binding sites in the scan layer", n, 4)
+
+
+def _aliases_of_call(b, c):
+    out = {c.dest["l"]}
+    for _ in range(4):
+        for x in b.calls():
+            if x.args and F.op_place(x.args[0]) is not None and F.op_place(x.args[0])["l"] in out and x.name() in ("copied", "cloned", "or_else", "or", "map") and not x.dest["p"]:
+                out.add(x.dest["l"])
+        for bb, i, pl, rv, st in b.assigns():
+            if not pl["p"] and rv["rv"] == "use" and F.op_place(rv["op"]) is not None and F.op_place(rv["op"])["l"] in out and not F.op_place(rv["op"])["p"]:
+                out.add(pl["l"])
+    return out
